@@ -206,3 +206,93 @@ Proof.
   { apply forallb_forall. intros a Ha. apply wf_in_range. apply (HG a Ha). }
   rewrite R. reflexivity.
 Qed.
+
+(* ---------- user guides ---------- *)
+Definition raw_of (e : ug_entry) : raw_entry :=
+  match e with
+  | UGInput p => REInput (psym p) (N.of_nat (parity p))
+  | UGOutput p => REOutput (psym p) (N.of_nat (parity p))
+  | UGPlaceholder c s => REPlaceholder c s
+  | UGFormula a => REFormula a
+  end.
+Lemma entry_of_raw_of e : entry_of_raw (raw_of e) = e.
+Proof. destruct e as [[p n]|[p n]|c s|a]; cbn; rewrite ?Nat2N.id; reflexivity. Qed.
+
+Lemma peg_ug_entry_role t1 ts fuel : is_word "input" t1 = false -> is_word "output" t1 = false ->
+  peg_ug_entry fuel (t1 :: ts) = peg_ug_annot fuel (t1 :: ts).
+Proof.
+  intros H1 H2. unfold peg_ug_entry.
+  repeat match goal with
+         | |- context [match ?x with _ => _ end] => is_var x; destruct x
+         end; rewrite ?H1, ?H2; reflexivity.
+Qed.
+
+Lemma role_tok_not_io ro : is_word "input" (role_tok ro) = false /\ is_word "output" (role_tok ro) = false.
+Proof. destruct ro; split; reflexivity. Qed.
+
+Lemma sort_of_letter s : sort_of_word (sort_letter s) = Some s.
+Proof. destruct s; reflexivity. Qed.
+
+Definition egood (e : ug_entry) : Prop :=
+  match e with
+  | UGInput p | UGOutput p => in_usize (N.of_nat (parity p)) = true
+  | UGPlaceholder _ _ => True
+  | UGFormula a => fgood (an_formula a)
+  end.
+Definition ebound (e : ug_entry) : nat := match e with UGFormula a => fsize (an_formula a) + 3 | _ => 0 end.
+
+Lemma peg_ug_entry_ok e fuel R : ebound e < fuel -> egood e ->
+  peg_ug_entry fuel (print_ug_entry false e ++ TDot :: R) = Ok (raw_of e) (TDot :: R).
+Proof.
+  intros Hf HG. destruct e as [[p n]|[p n]|c s|a]; cbn [print_ug_entry print_pred tsp app psym parity raw_of].
+  - reflexivity.
+  - reflexivity.
+  - unfold peg_ug_entry. cbn [is_word String.eqb]. 
+    change (is_word "input" (TWord "input")) with true. cbn [peg_placeholder_sort]. rewrite sort_of_letter. reflexivity.
+  - cbn [ebound egood] in *.
+    transitivity (peg_ug_annot fuel (print_annot false a ++ TDot :: R)).
+    + assert (EX : exists rest, print_annot false a ++ TDot :: R = role_tok (an_role a) :: rest)
+        by (destruct a; eexists; reflexivity).
+      destruct EX as [rest EX]. destruct (role_tok_not_io (an_role a)) as [H1 H2].
+      rewrite EX. apply peg_ug_entry_role; assumption.
+    + unfold peg_ug_annot. rewrite peg_annot_ok; [reflexivity|exact Hf|exact HG].
+Qed.
+
+Lemma peg_ug_entry_nil fuel : peg_ug_entry fuel [] = Fail.
+Proof. reflexivity. Qed.
+
+Definition ugood (u : user_guide) : Prop := forall e, In e u -> egood e.
+
+Definition praw (r : raw_entry) : list token := print_ug_entry false (entry_of_raw r).
+Lemma print_ug_dotted u : print_ug false u = pdotted praw (map raw_of u).
+Proof.
+  induction u as [|e u IH]; [reflexivity|]. cbn [print_ug tnl app map pdotted flat_map]. fold (pdotted praw (map raw_of u)).
+  change (praw (raw_of e)) with (print_ug_entry false (entry_of_raw (raw_of e))).
+  rewrite entry_of_raw_of, IH, <- app_assoc. reflexivity.
+Qed.
+
+Lemma print_ug_entry_length e : ebound e <= 3 * List.length (print_ug_entry false e) + 3.
+Proof.
+  destruct e as [p|p|c s|a]; cbn [ebound]; try lia.
+  cbn [print_ug_entry]. pose proof (print_annot_length a). pose proof (fsize_tokens (an_formula a)). lia.
+Qed.
+
+Theorem ug_rt u : ugood u -> parse_ug_toks (print_ug false u) = PR_ok u.
+Proof.
+  intros HG. unfold parse_ug_toks. rewrite print_ug_dotted.
+  set (ts := pdotted praw (map raw_of u)).
+  assert (E : peg_dotted peg_ug_entry (fuel_of ts) ts = Ok (map raw_of u) []).
+  { apply (dotted_ok peg_ug_entry praw (fun r => ebound (entry_of_raw r)) (fun r => exists e, r = raw_of e /\ egood e)).
+    - intros r fuel R (e & -> & Ge) Hf. unfold praw. rewrite entry_of_raw_of in *. apply peg_ug_entry_ok; assumption.
+    - intros fuel _. apply peg_ug_entry_nil.
+    - intros r Hr. apply in_map_iff in Hr. destruct Hr as (e & <- & He). exists e. split; [reflexivity|apply HG; exact He].
+    - intros r Hr. pose proof (fuel_of_ge ts). pose proof (pdotted_length_ge praw (map raw_of u) r Hr).
+      pose proof (print_ug_entry_length (entry_of_raw r)). unfold praw in H0 at 1. fold ts in H0. lia.
+    - pose proof (fuel_of_ge ts). lia. }
+  rewrite E. cbn [finish].
+  assert (R : forallb raw_entry_in_range (map raw_of u) = true).
+  { apply forallb_forall. intros r Hr. apply in_map_iff in Hr. destruct Hr as (e & <- & He).
+    specialize (HG e He). destruct e as [p|p|c s|a]; cbn in *; try assumption; try reflexivity.
+    apply wf_in_range. apply HG. }
+  rewrite R. rewrite map_map. f_equal. rewrite <- (map_id u) at 2. apply map_ext. intros e. apply entry_of_raw_of.
+Qed.
